@@ -263,6 +263,19 @@ CAP_SHAPES = ["Two", "Flat4", "One", "Heap", "NMid", "Deep", "DrH", "NLast", "ZZ
 GROW_OPS = ["push", "push", "push", "extend", "insert", "append", "extend_from_slice", "resize", "collect", "split_off", "to_vec"]
 
 
+def reserve_overflow(shapes):
+    """requests no allocator can satisfy (>= 2^63 elements): `Vec::reserve*` reports "capacity overflow" before touching anything,
+    in every profile; a zero-sized struct only when len + additional overflows"""
+    out = []
+    for sh in shapes:
+        for pre in (0, 1, 3):
+            base = [setup(pre)] if pre else ["new r0"]
+            for n in (2 ** 63, 2 ** 63 + 1, MAX - 1, MAX):
+                for op in ("reserve", "reserve_exact"):
+                    out.append(Scenario(sh, base + [f"{op} r0 {n}", "len r0", "push r0 9", "len r0"], "reserve-overflow"))
+    return out
+
+
 def cap_scenarios(shapes, count, nops, seed):
     """histories mixing growth, reserve*, shrink_to_fit, with_capacity with capacity queries and promises"""
     rng = random.Random(seed)
